@@ -160,22 +160,33 @@ def exception_codec_stateless(ctx):
     EX, SB = "pynenc.exceptions", "pynenc.state_backend.base_state_backend"
     bad = []
     mod = ctx.src.module(EX)
+    CONTAINER_CTORS = {"dict", "list", "set", "defaultdict", "OrderedDict", "WeakValueDictionary", "WeakKeyDictionary", "deque", "Counter", "ChainMap"}
+
+    def is_container(v):
+        if isinstance(v, (ast.Dict, ast.List, ast.Set, ast.DictComp, ast.ListComp, ast.SetComp)):
+            return True
+        if isinstance(v, ast.Call):
+            fname = v.func.id if isinstance(v.func, ast.Name) else v.func.attr if isinstance(v.func, ast.Attribute) else ""
+            return fname in CONTAINER_CTORS
+        return False
     for node in mod.tree.body:                                   # module-level containers in exceptions.py
-        if isinstance(node, (ast.Assign, ast.AnnAssign)) and isinstance(getattr(node, "value", None), (ast.Dict, ast.List, ast.Set, ast.Call)):
+        if isinstance(node, (ast.Assign, ast.AnnAssign)) and is_container(getattr(node, "value", None)):
             tg = node.targets[0] if isinstance(node, ast.Assign) else node.target
-            v = node.value
-            fname = v.func.id if isinstance(v, ast.Call) and isinstance(v.func, ast.Name) else v.func.attr if isinstance(v, ast.Call) and isinstance(v.func, ast.Attribute) else ""
-            if isinstance(tg, ast.Name) and fname not in ("TypeVar", "getLogger"):
-                bad.append(f"exceptions.py line {node.lineno}: module-level object {tg.id}")
+            if isinstance(tg, ast.Name) and tg.id != "__all__":
+                bad.append(f"exceptions.py line {node.lineno}: module-level container {tg.id}")
     classes = [n for n in mod.tree.body if isinstance(n, ast.ClassDef)]
     for cls in classes:
         for node in cls.body:                                    # class-level containers of the exception classes
-            if isinstance(node, (ast.Assign, ast.AnnAssign)) and isinstance(getattr(node, "value", None), (ast.Dict, ast.List, ast.Set, ast.Call, ast.DictComp, ast.ListComp)):
+            if isinstance(node, (ast.Assign, ast.AnnAssign)) and is_container(getattr(node, "value", None)):
                 tg = node.targets[0] if isinstance(node, ast.Assign) else node.target
-                bad.append(f"{cls.name} line {node.lineno}: class-level object {getattr(tg, 'id', '?')} shared by the whole process")
+                bad.append(f"{cls.name} line {node.lineno}: class-level container {getattr(tg, 'id', '?')} shared by the whole process")
         for fn in [n for n in cls.body if isinstance(n, (ast.FunctionDef, ast.AsyncFunctionDef))]:
             if fn.name not in ("from_json", "_from_json_dict", "to_json", "_to_json_dict") and not fn.name.startswith("_get"):
                 continue
+            for d in fn.decorator_list:
+                dn = d.func if isinstance(d, ast.Call) else d
+                if (isinstance(dn, ast.Name) and dn.id in ("cache", "lru_cache")) or (isinstance(dn, ast.Attribute) and dn.attr in ("cache", "lru_cache")):
+                    bad.append(f"{cls.name}.{fn.name}: memoised (process-wide cache of results)")
             for node in ast.walk(fn):
                 if isinstance(node, (ast.Assign, ast.AugAssign, ast.AnnAssign)):
                     for t in (node.targets if isinstance(node, ast.Assign) else [node.target]):
